@@ -355,6 +355,15 @@ func (ww *conversionVisitor) visitEnumNode(node *sourcewalk.EnumNode) {
 
 		eb.desc.Options = &descriptorpb.EnumOptions{}
 		proto.SetExtension(eb.desc.Options, ext_j5pb.E_Enum, ext)
+		ww.file.ensureImport(j5ExtImport)
+	}
+
+	for _, option := range node.Schema.Options {
+		if len(option.Info) > 0 {
+			// addValue annotates the value with (j5.ext.v1.enum_value)
+			ww.file.ensureImport(j5ExtImport)
+			break
+		}
 	}
 
 	optionsToSet := node.Schema.Options
